@@ -84,6 +84,9 @@ class PropertyRun:
         self.bounded = []
         self.notes = []
         self.replay_dir = os.path.join(VERIF, 'replays', self.pid)
+        if os.environ.get('PYVC_REPO') and os.path.realpath(os.environ['PYVC_REPO']) != os.path.realpath('/repo'):
+            # runs against scratch copies (seeded changes) may overlap in time: one replay directory per process
+            self.replay_dir = os.path.join(VERIF, 'replays', '_scratch_%d' % os.getpid(), self.pid)
 
     # ------------------------------------------------------------ deductive
     def run_deductive(self):
